@@ -49,8 +49,8 @@ def run(tier):
     R.fatal.append('static conditions did not run: %r' % (st,))
   unit.run_units(R, 'vf.harness.c09', [(n, (n,)) for n in c09.BINDING], pct, 10.0,
                  title='converted function binds/behaves differently', setup='prewarm')
-  unit.run_units(R, 'vf.harness.c09', c09.SEMANTIC, pct * 2, 10.0,
-                 title='converted function does not share environment with the original')
+  unit.run_units(R, 'vf.harness.c09', [(n, (n,)) for n in c09.SEMANTIC], pct * 2, 10.0,
+                 title='converted function does not share environment with the original', setup='prewarm')
   if st.get('verdict') == 'confirmed':
     unit.run_units(R, 'vf.harness.c09', ['directive_only_free_var', 'directive_only_sorted_first'], pct, 10.0,
                    title='function whose free variable is only used by a directive',
